@@ -109,6 +109,14 @@ def sums(rep, D, shard, Sum, tag):
                    lambda: (f + g) >> (g0 + g1), lambda: (f >> (g0 + g1)) + (g >> (g0 + g1)),
                    inp + ' g0=%r g1=%r' % (g0, g1))
                 break
+            # the same for the tensor of two multi-term sums: it distributes over its LEFT operand term by term
+            for (dom2, cod2), gs in list(groups.items())[:3]:
+                if len(gs) < 2:
+                    continue
+                g0, g1 = gs[0], gs[1]
+                eq(rep, 'sum.tensor.left_distrib.sum_right',
+                   lambda: (f + g) @ (g0 + g1), lambda: (f @ (g0 + g1)) + (g @ (g0 + g1)),
+                   inp + ' g0=%r g1=%r' % (g0, g1))
 
 
 def bubbles(rep, D, tag):
